@@ -62,13 +62,30 @@ structure Plan where
   a1 : AttTok
   n : List Nat
   closeAt : Char
+  /-- points at which a ResolveNow is started and held after its pointer load -/
+  holdAt : List Char := []
+  /-- points at which all held calls are released -/
+  relAt : List Char := []
+
+def parseSplits (s : String) : Option (List Char × List Char) :=
+  (s.splitOn ",").foldlM (fun (acc : List Char × List Char) t =>
+    match t.toList with
+    | ['h', p] => some (acc.1 ++ [p], acc.2)
+    | ['r', p] => some (acc.1, acc.2 ++ [p])
+    | _ => none) ([], [])
+
+def parsePlan4 (x y ns cl : String) : Option Plan :=
+  match parseAtt x, parseAtt y, (ns.splitOn ".").mapM String.toNat?, cl.toList with
+  | some a, some b, some n, [c] => if n.length = 5 then some { a0 := a, a1 := b, n := n, closeAt := c } else none
+  | _, _, _, _ => none
 
 def parsePlan (s : String) : Option Plan :=
   match s.splitOn "/" with
-  | [x, y, ns, cl] =>
-    match parseAtt x, parseAtt y, (ns.splitOn ".").mapM String.toNat?, cl.toList with
-    | some a, some b, some n, [c] => if n.length = 5 then some { a0 := a, a1 := b, n := n, closeAt := c } else none
-    | _, _, _, _ => none
+  | [x, y, ns, cl] => parsePlan4 x y ns cl
+  | [x, y, ns, cl, sp] =>
+    match parsePlan4 x y ns cl, parseSplits sp with
+    | some p, some (h, r) => some { p with holdAt := h, relAt := r }
+    | _, _ => none
   | _ => none
 
 /-! ### model side of one poll -/
@@ -119,6 +136,8 @@ structure V where
   obsAtt : List String
   obsCb : List String
   sawK : Bool
+  /-- caller ids of ResolveNow calls held between pointer load and once-call -/
+  held : List Nat
   tags : List String
   /-- first model/implementation disagreement on a poll's streams or callbacks that does not
       violate the specification; the replay goes on (a later poll may violate it) -/
@@ -127,7 +146,7 @@ structure V where
 def V.init : V :=
   { w := W.init true, r := RState.init Bytes, rNext := RState.init Bytes, specLast := none, specNext := none,
     expAtt := [], expCb := [], specCb := [], phase := .idle, nPolls := 0, obsAtt := [], obsCb := [],
-    sawK := false, tags := [], pendingDiff := none }
+    sawK := false, held := [], tags := [], pendingDiff := none }
 
 def defaultPlan (plans : List Plan) : Plan :=
   match plans.getLast? with
@@ -147,16 +166,40 @@ def iter {α : Type} (f : α → Option α) : Nat → α → Option α
     | some a' => iter f k a'
     | none => none
 
-/-- the harness' `doActions(point)`: n ResolveNow calls, then possibly the Close call -/
-def acts (w : W) (p : Plan) (point : Nat) : Option W :=
-  if w.closer = .returned then some w else
+/-- the rest of a held call: once test-and-set, channel close if it won -/
+def finishCall (w : W) (i : Nat) : Option W :=
+  match step w (.fire i) with
+  | none => none
+  | some w1 => match step w1 (.closeCh i) with
+    | some w2 => some w2
+    | none => some w1
+
+def finishAll : W → List Nat → Option W
+  | w, [] => some w
+  | w, i :: rest => match finishCall w i with
+    | some w' => finishAll w' rest
+    | none => none
+
+/-- the harness' `doActions(point)`: held calls are started (pointer load only), n whole ResolveNow
+    calls are made, held calls are released, then possibly the Close call -/
+def acts (wh : W × List Nat) (p : Plan) (point : Nat) : Option (W × List Nat) :=
+  let (w, held) := wh
+  if w.closer = .returned then some (w, held) else
+  let pc := Char.ofNat ('A'.toNat + point)
   match p.n[point]? with
   | none => none
   | some k =>
-    match iter resolveNowAtomic k w with
+    let nh := (p.holdAt.filter (· == pc)).length
+    match iter (fun (x : W × List Nat) => (step x.1 (.load x.1.loads)).map (fun w' => (w', x.2 ++ [x.1.loads]))) nh (w, held) with
     | none => none
-    | some w' =>
-      if p.closeAt.toNat = 'A'.toNat + point ∧ w'.closer = .idle then step w' .closeCall else some w'
+    | some (w1, held1) =>
+      match iter resolveNowAtomic k w1 with
+      | none => none
+      | some w2 =>
+        match (if p.relAt.contains pc then (finishAll w2 held1).map (fun w' => (w', ([] : List Nat))) else some (w2, held1)) with
+        | none => none
+        | some (w3, held3) =>
+          if p.closeAt = pc ∧ w3.closer = .idle then (step w3 .closeCall).map (fun w' => (w', held3)) else some (w3, held3)
 
 def tag (v : V) (t : String) : V := if v.tags.contains t then v else { v with tags := v.tags ++ [t] }
 
@@ -178,9 +221,9 @@ def onToken (os : Bool) (tab : List CEntry) (plans : List Plan) (v : V) (t : Str
     match w0 with
     | none => diff "rearm"
     | some w0 =>
-      match (acts w0 plan 0).bind (fun w => step w .pollStart) |>.bind (fun w => acts w plan 1) with
+      match (acts (w0, v.held) plan 0).bind (fun wh => (step wh.1 .pollStart).map (fun w => (w, wh.2))) |>.bind (fun wh => acts wh plan 1) with
       | none => diff "poll-start-not-enabled"
-      | some w1 =>
+      | some (w1, held1) =>
         match toAttempt os tab plan.a0, toAttempt os tab plan.a1 with
         | some e0, some e1 =>
           let env : Version → Attempt String := fun m => match m with | .v1 => e0 | .v1alpha => e1
@@ -188,7 +231,7 @@ def onToken (os : Bool) (tab : List CEntry) (plans : List Plan) (v : V) (t : Str
           let isG := plan.a0.mode = 'G' ∨ plan.a1.mode = 'G'
           let expAtt := if isG then tried.map (fun _ => "g") else tried.map verTok
           let (sl, scbs) := specPoll v.specLast (outcomeOf env v.r.methodPriority)
-          let v := { v with w := w1, rNext := r', specNext := sl, expAtt := expAtt, expCb := cbs.map cbTok,
+          let v := { v with w := w1, held := held1, rNext := r', specNext := sl, expAtt := expAtt, expCb := cbs.map cbTok,
                             specCb := scbs.map cbTok, phase := .polling, nPolls := v.nPolls + 1, obsAtt := [], obsCb := [] }
           let v := if tried.length > 1 then tag v "b=fallback" else v
           let v := if cnt plan 1 > 0 then tag v "b=resolveNowDuringPoll" else v
@@ -216,24 +259,26 @@ def onToken (os : Bool) (tab : List CEntry) (plans : List Plan) (v : V) (t : Str
       let v := if (v.obsCb ≠ v.expCb ∨ v.obsAtt ≠ v.expAtt) ∧ v.pendingDiff.isNone then
           { v with pendingDiff := some s!"DIFF model=poll={v.nPolls - 1}:streams={join v.expAtt}:callbacks={join v.expCb}:got-streams={join v.obsAtt}:got-callbacks={join v.obsCb}" }
         else v
-      match (step v.w (.pollEnd (!v.obsCb.isEmpty))).bind (fun w => acts w plan 2) with
+      match (step v.w (.pollEnd (!v.obsCb.isEmpty))).bind (fun w => acts (w, v.held) plan 2) with
       | none => diff "poll-end-not-enabled"
-      | some w' =>
-        let v := { v with w := w', r := v.rNext, specLast := v.specNext, phase := .atSelect, sawK := false }
+      | some (w', held') =>
+        let v := { v with w := w', held := held', r := v.rNext, specLast := v.specNext, phase := .atSelect, sawK := false }
         let v := if !obsUpd.isEmpty then tag v "b=update" else if v.obsCb.isEmpty then tag v "b=unchanged" else tag v "b=error"
         let v := if cnt plan 2 > 0 then tag v "b=resolveNowBeforeSelect" else v
         .ok v
   else if t = "K" then
     if v.phase ≠ .atSelect ∨ v.sawK then diff "parked-unexpected" else
     if v.w.cur ∈ v.w.closed then viol s!"lost-wake-up poll={v.nPolls - 1} poller-parked-although-ResolveNow-completed-on-the-armed-generation"
-    else match acts v.w plan 3 with
+    else match acts (v.w, v.held) plan 3 with
       | none => diff "actions-D"
-      | some w' =>
-        let v := { v with w := w', sawK := true }
+      | some (w', held') =>
+        let v := { v with w := w', held := held', sawK := true }
+        let v := if plan.relAt.contains 'D' ∨ plan.holdAt.contains 'D' then tag v "b=splitResolveNow" else v
         .ok (if cnt plan 3 > 0 then tag v "b=resolveNowWhileParked" else v)
   else if t = "Z" then
     if v.phase ≠ .atSelect ∨ !v.sawK then diff "final-close-unexpected" else
-    match step v.w .closeCall with
+    if v.w.cur ∈ v.w.closed then viol s!"lost-wake-up poll={v.nPolls - 1} poller-still-parked-after-a-ResolveNow-completed-on-the-armed-generation"
+    else match step v.w .closeCall with
     | none => diff "final-close-twice"
     | some w' => .ok { v with w := w' }
   else if t = "!nowake" then
@@ -245,10 +290,10 @@ def onToken (os : Bool) (tab : List CEntry) (plans : List Plan) (v : V) (t : Str
     | none => diff s!"wake-up-without-ResolveNow poll={v.nPolls - 1}"
     | some w1 =>
       let v := if v.w.closer = .sending then tag v "b=wakeWinsOverClose" else v
-      match acts w1 plan 4 with
+      match acts (w1, v.held) plan 4 with
       | none => diff "actions-E"
-      | some w' =>
-        let v := { v with w := w', phase := .idle }
+      | some (w', held') =>
+        let v := { v with w := w', held := held', phase := .idle }
         .ok (if cnt plan 4 > 0 then tag v "b=resolveNowInRearmWindow" else v)
   else if t = "c" then
     match step v.w .takeDone with
